@@ -308,13 +308,13 @@ Theorem own_parameters_only (ifu : bool) (ddt dd dl beta lam_own lam_other s_oth
   yields Gw 100 (CFun src_LensLikelihood_log_likelihood_single) (Some (lens_self ifu))
     [num ddt; num dd; num dl; num beta; kw_lens; dict []; dict [("mu_sne", num mu); ("sigma_sne", num 0)];
      VList [los0; dict [("mean", num k1); ("sigma", num 0)]; los2]] [] rg cu
-    (num (D [num (ddt * (l * (1 - kap))); num (dd * (1 + g) / 2)]
+    (num (D [VArr [num (ddt * (l * (1 - kap)))]; num (dd * (1 + g) / 2)]
             [("beta_dsp", num beta); ("kin_scaling", K (dict [("lambda_mst", num l); ("gamma_ppn", num g); ("gamma_pl", num g1)]));
-             ("sigma_v_sys_error", VNone); ("mu_intrinsic", num (mu + 0 * rg (S (S cu)) + dl + 5 * log10 (l * (1 - kap))));
+             ("sigma_v_sys_error", VNone); ("mu_intrinsic", VArr [num (mu + 0 * rg (S (S cu)) + dl + 5 * log10 (l * (1 - kap)))]);
              ("gamma_pl", num g1); ("lambda_mst", num l)] + 0))
     (S (S (S cu)))
-    [("log_likelihood", [num (ddt * (l * (1 - kap))); num (dd * (1 + g) / 2); num beta; K (dict [("lambda_mst", num l); ("gamma_ppn", num g); ("gamma_pl", num g1)]);
-                         VNone; num (mu + 0 * rg (S (S cu)) + dl + 5 * log10 (l * (1 - kap))); num g1; num l])].
+    [("log_likelihood", [VArr [num (ddt * (l * (1 - kap)))]; num (dd * (1 + g) / 2); num beta; K (dict [("lambda_mst", num l); ("gamma_ppn", num g); ("gamma_pl", num g1)]);
+                         VNone; VArr [num (mu + 0 * rg (S (S cu)) + dl + 5 * log10 (l * (1 - kap)))]; num g1; num l])].
 Proof.
   intros H kw_lens l kap. subst kw_lens.
   assert (Hne : l <> 0) by (intro E; unfold l in E; rewrite E in H; lra).
